@@ -3,7 +3,7 @@ R-CONST language-tag sigil, R-SCOPE what the datatype decision looks at, R-TS st
 R-IDX inclusive/exclusive index kinds, R-BOUND bounds-check adequacy, R-STALE snapshot of a field the loop updates."""
 import ast
 import hashlib
-from ..core import walk_own, norm, is_self_attr, parent_map, AnalysisError
+from ..core import walk_own, norm, is_self_attr, parent_map, AnalysisError, lit, is_lit, NOLIT
 from ..report import Ob
 from ..abseval import Evaluator, Opaque
 
@@ -62,8 +62,8 @@ def lang_sigil(ctx, clause):
         for x in walk_own(tok.node):
             if isinstance(x, ast.Compare) and len(x.ops) == 1 and isinstance(x.ops[0], (ast.In, ast.Eq)):
                 for y in ast.walk(x.comparators[0]):
-                    if isinstance(y, ast.Constant) and isinstance(y.value, str):
-                        consts.add(y.value)
+                    if isinstance(lit(y), str):
+                        consts.add(lit(y))
         ok = sig in consts
         obs.append(Ob(clause, "R-CONST", "R-CONST|lang-sigil|scanner-tests-the-predicate-sigil", tok.loc(), ok,
                       "the literal scanner tests %r after the closing quote, the sigil the language-tag predicate looks for" % sig if ok else
@@ -134,8 +134,7 @@ def datatype_scope(ctx, clause):
 def line_reader_split(ctx, clause):
     f = ctx.p.func("shexer.io.line_reader.raw_string_line_reader:RawStringLineReader.read_lines")
     calls = [x for x in walk_own(f.node) if isinstance(x, ast.Call) and isinstance(x.func, ast.Attribute) and x.func.attr in ("split", "splitlines")]
-    ok = len(calls) == 1 and calls[0].func.attr == "split" and len(calls[0].args) == 1 and isinstance(calls[0].args[0], ast.Constant) \
-        and calls[0].args[0].value == "\n"
+    ok = len(calls) == 1 and calls[0].func.attr == "split" and len(calls[0].args) == 1 and is_lit(calls[0].args[0], "\n")
     return [Ob(clause, "R-CONST", "R-CONST|line-separator|RawStringLineReader.read_lines", f.loc(), ok,
                "a raw document is cut into statements at '\\n' only" if ok else
                "a raw document is cut with `%s`: characters that are legal inside an N-Triples literal (U+2028, U+0085, form feed ...) "
@@ -228,16 +227,16 @@ def index_kinds(ctx, clause):
         if isinstance(e, ast.Call) and isinstance(e.func, ast.Name) and e.func.id == "len":
             return KIND_EXCL
         if isinstance(e, ast.Call) and isinstance(e.func, ast.Attribute) and e.func.attr == "find" and e.args \
-                and isinstance(e.args[0], ast.Constant) and e.args[0].value == " ":
+                and is_lit(e.args[0], " "):
             return KIND_EXCL          # a blank after the token does not belong to it
         if isinstance(e, ast.Call) and isinstance(e.func, ast.Attribute) and e.func.attr == "find" and e.args \
-                and isinstance(e.args[0], ast.Constant) and e.args[0].value in (">", '"'):
+                and is_lit(e.args[0], ">", '"'):
             return KIND_INCL          # the closing delimiter belongs to the token
         if isinstance(e, ast.Call) and isinstance(e.func, ast.Attribute) and is_self_attr(e.func):
             q = TTL + e.func.attr
             if q in kinds:
                 return kinds[q]
-        if isinstance(e, ast.BinOp) and isinstance(e.right, ast.Constant) and e.right.value == 1:
+        if isinstance(e, ast.BinOp) and is_lit(e.right, 1):
             k = kind(e.left, f)
             if isinstance(e.op, ast.Sub) and k == KIND_EXCL:
                 return KIND_INCL
@@ -400,7 +399,7 @@ def _starts_with_quote(e):
     """A concatenation whose leftmost operand is a constant beginning with a double quote."""
     while isinstance(e, ast.BinOp) and isinstance(e.op, ast.Add):
         e = e.left
-    return isinstance(e, ast.Constant) and isinstance(e.value, str) and e.value.startswith('"')
+    return isinstance(lit(e), str) and lit(e).startswith('"')
 
 
 def _guarded_by_quote_test(f, node, name):
@@ -413,7 +412,7 @@ def _guarded_by_quote_test(f, node, name):
         if isinstance(par, ast.If) and any(cur is s for s in par.body):
             t = par.test
             if isinstance(t, ast.Call) and isinstance(t.func, ast.Attribute) and t.func.attr == "startswith" and isinstance(t.func.value, ast.Name) \
-                    and t.func.value.id == name and t.args and isinstance(t.args[0], ast.Constant) and t.args[0].value == '"':
+                    and t.func.value.id == name and t.args and is_lit(t.args[0], '"'):
                 return True
         cur = par
     return False
@@ -749,6 +748,14 @@ def _read_document(ctx, cname, doc, extra_env=None):
         if "does not terminate" in str(e):
             return "diverges", str(e), selfenv
         raise
+    # the counters are read through the reader's public properties (whatever the fields behind them are called)
+    for prop in ("error_triples", "yielded_triples"):
+        m = cls.find_method(prop)
+        if m is not None and m.is_property:
+            try:
+                selfenv["<%s>" % prop] = ev.call(m, {}, selfenv, 0)
+            except (Raised, Fork):
+                pass
     return "ok", [tuple(_term(x) for x in t) for t in res], selfenv
 
 
@@ -781,7 +788,7 @@ def nt_document_table(ctx, clause):
         want = [tuple((("Literal", x[1].replace("\\\\", "\\") if isinstance(x[1], str) else x[1], x[2]) if isinstance(x, tuple) and x[0] == "Literal" else x)
                       for x in t) for t in want]
         status, got, env = _read_document(ctx, "NtTriplesYielder", doc)
-        nerr = env.get("self._error_triples")
+        nerr = env.get("<error_triples>")
         ok = status == "ok" and _same(got, want) and nerr == errors
         obs.append(Ob(clause, "R-TABLE", "R-TABLE|nt-document|%s" % label, f.loc(), ok,
                       "document (%s) -> %d triples as written, %d error lines" % (label, len(want), errors) if ok else
